@@ -650,6 +650,13 @@ pub fn declaration_variants() -> Vec<Vec<Item>> {
             body: Some(vec![field(Ty::Int, "f", Some(int(3)), &[], false), field(Ty::List(Box::new(Ty::Int)), "g", Some(E::List(vec![int(1)])), &[], false), field(Ty::Int, "own", Some(int(4)), &[], false)]),
         },
     ]);
+    // a field overridden through lets of some of its bits only is overridden in that body
+    out.push(vec![
+        base.clone(),
+        Item::Class { doc: vec![], blank: false, name: "PB".into(), targs: vec![], parents: vec![], body: Some(vec![field(Ty::Bits(8), "enc", Some(int(0)), &[], false), field(Ty::Int, "size", Some(int(1)), &[], false)]) },
+        Item::Def { doc: vec![], blank: false, name: Some("d".into()), parents: vec![CRef::plain("PB")], body: Some(vec![BI::Let { name: "enc{3-0}".into(), value: int(5) }, BI::Let { name: "size".into(), value: int(2) }]) },
+        Item::Class { doc: vec![], blank: false, name: "C".into(), targs: vec![], parents: vec![CRef::plain("PB")], body: Some(vec![BI::Let { name: "enc{7}".into(), value: int(1) }]) },
+    ]);
     // several parents: an override of a field of each of them is a child
     {
         let cls = |n: &str, fld: &str| Item::Class { doc: vec![], blank: false, name: n.into(), targs: vec![], parents: vec![], body: Some(vec![field(Ty::Int, fld, Some(int(0)), &[], false)]) };
